@@ -57,6 +57,8 @@ def _make(wd, c):
         contents.append(good)
         if st == 'missing':
             os.unlink(p)
+        elif st == 'unreadable':
+            pass            # present with the right size; open() will be made to fail for it
         elif st != 'ok':
             n = int(st)
             data = (good + content.file_bytes(c['cseed'] + 1, i, max(0, n - len(good))))[:n]
@@ -76,6 +78,16 @@ def _run_chunk(cases):
             files, contents, top = _make(wd, c)
             t = content.make_torrent(torf, wd, 'T', files, c['L'])
             index_of = {os.path.join(top, *f['path']): i for i, f in enumerate(files)}
+            blocked = {os.path.join(top, *f['path']) for f, st in zip(files, c['disk']) if st == 'unreadable'}
+            if blocked:
+                import builtins
+                import errno as _errno
+
+                def _open(p, mode='r', *a, **k):
+                    if str(p) in blocked:
+                        raise PermissionError(_errno.EACCES, 'injected: permission denied', str(p))
+                    return builtins.open(p, mode, *a, **k)
+                _stream.open = _open
             with _stream.TorrentFileStream(t) as tfs:
                 items = []
                 for (piece, fp, excs) in tfs.iter_pieces():
@@ -93,6 +105,8 @@ def _run_chunk(cases):
             obs['exc_type'] = type(e).__name__
             obs['exc'] = str(e)[:200]
             contents = contents if 'contents' in dir() else []
+        finally:
+            _stream.__dict__.pop('open', None)
         out.append((c, obs, contents))
     return out
 
@@ -155,7 +169,8 @@ def evaluate(ctx, drv, cases):
     for c in cases:
         c.setdefault('paths', layouts.paths_for(len(c['sizes']), rng, nested=c.get('kind', '').startswith('random')))
         c.setdefault('cseed', rng.randrange(1 << 30))
-    replies = drv.run([{'op': 'c10.items', 'L': c['L'], 'sizes': c['sizes'], 'disk': c['disk']} for c in cases])
+    replies = drv.run([{'op': 'c10.items', 'L': c['L'], 'sizes': c['sizes'],
+                        'disk': ['missing' if d == 'unreadable' else d for d in c['disk']]} for c in cases])
     results = common.pmap(_run_chunk, common.split(cases, common.NPROC * 4))
     k = 0
     for chunk in results:
@@ -243,13 +258,25 @@ def gen_cases(ctx, scale=1.0):
     cases += bigger
     for _ in range(int(ctx.n(4000, 120000) * scale)):
         cases.append(random_case(rng))
+    # a present file of the right size whose open() fails (the only bad file, so it is handled by the main
+    # loop like a missing one and reported with a read error)
+    for _ in range(int(ctx.n(400, 8000) * scale)):
+        c = random_case(rng)
+        nz = [i for i, sz in enumerate(c['sizes']) if sz > 0]
+        if not nz:
+            continue
+        c['disk'] = ['ok'] * len(c['sizes'])
+        c['disk'][rng.choice(nz)] = 'unreadable'
+        c['kind'] = 'unreadable-' + c['kind']
+        cases.append(c)
     return cases
 
 
 def run(ctx, drv):
     ctx.notes['rule'] = RULE
     ctx.notes['assumptions'] = [
-        'a listed file is bad iff it does not exist or its size differs (unreadable-but-present files: C04 fault injection)',
+        'a listed file is bad iff it does not exist or its size differs; a present file of the right size whose open() fails is '
+        'probed as the only bad file (expected: the items of the same case with that file missing)',
         'theorem hypothesis: no bad zero-length entry; outside it the implementation is compared with the lenient spec directly',
         'file system behaviour (open/read/seek/getsize) of CPython/Linux is trusted',
     ]
